@@ -14,6 +14,7 @@ import (
 
 var (
 	elementOK, scalarOK, pointOK bool
+	pointOffs                    [4]uintptr
 	guardErr                     string
 )
 
@@ -37,17 +38,19 @@ func init() {
 	if !scalarOK {
 		guardErr += "Scalar is not one [4]uint64; "
 	}
+	// Point: exactly four Element fields (x, y, z, t in declaration order); any other fields
+	// (hints, caches a refactoring may add) are left alone by the limb views below.
 	pt := reflect.TypeOf(edwards25519.Point{})
-	pointOK = elementOK && pt.Size() == 160
+	pointOK = elementOK && pt.Kind() == reflect.Struct
 	if pointOK {
 		n := 0
 		for i := 0; i < pt.NumField(); i++ {
 			f := pt.Field(i)
-			if f.Type.Size() == 0 {
+			if f.Type != et {
 				continue
 			}
-			if f.Type != et || f.Offset != uintptr(40*n) {
-				pointOK = false
+			if n < 4 {
+				pointOffs[n] = f.Offset
 			}
 			n++
 		}
@@ -56,7 +59,7 @@ func init() {
 		}
 	}
 	if !pointOK {
-		guardErr += "Point is not 4 x Element; "
+		guardErr += "Point does not hold exactly 4 Elements; "
 	}
 }
 
@@ -127,12 +130,8 @@ func ScalarLimbInt(l [4]uint64) *big.Int {
 	return v
 }
 
-// PointBytes returns the 160 raw bytes of p.
-func PointBytes(p *edwards25519.Point) [160]byte {
-	if !pointOK {
-		panic("raw: point layout guard failed")
-	}
-	return *(*[160]byte)(unsafe.Pointer(p))
+func coord(p *edwards25519.Point, i int) *[5]uint64 {
+	return (*[5]uint64)(unsafe.Add(unsafe.Pointer(p), pointOffs[i]))
 }
 
 // PointLimbs returns the 4x5 limbs of p (x, y, z, t).
@@ -140,21 +139,40 @@ func PointLimbs(p *edwards25519.Point) [4][5]uint64 {
 	if !pointOK {
 		panic("raw: point layout guard failed")
 	}
-	return *(*[4][5]uint64)(unsafe.Pointer(p))
+	return [4][5]uint64{*coord(p, 0), *coord(p, 1), *coord(p, 2), *coord(p, 3)}
 }
 
 func SetPointLimbs(p *edwards25519.Point, l [4][5]uint64) {
 	if !pointOK {
 		panic("raw: point layout guard failed")
 	}
-	*(*[4][5]uint64)(unsafe.Pointer(p)) = l
+	for i := range l {
+		*coord(p, i) = l[i]
+	}
 }
 
 // PointIsZeroValue reports whether p is bit-for-bit the zero value.
 func PointIsZeroValue(p *edwards25519.Point) bool {
-	return PointBytes(p) == [160]byte{}
+	return PointSnap(p) == string(make([]byte, unsafe.Sizeof(*p)))
 }
 
 func FmtLimbs(l [5]uint64) string {
 	return fmt.Sprintf("[%#x %#x %#x %#x %#x]", l[0], l[1], l[2], l[3], l[4])
+}
+
+// ---- layout-independent snapshots: the whole value as raw memory, whatever its fields ----
+
+// PointSnap returns the raw memory of p (all fields, including any a refactoring may add).
+func PointSnap(p *edwards25519.Point) string {
+	return string(unsafe.Slice((*byte)(unsafe.Pointer(p)), unsafe.Sizeof(*p)))
+}
+
+// ScalarSnap returns the raw memory of s.
+func ScalarSnap(s *edwards25519.Scalar) string {
+	return string(unsafe.Slice((*byte)(unsafe.Pointer(s)), unsafe.Sizeof(*s)))
+}
+
+// ElementSnap returns the raw memory of e.
+func ElementSnap(e *field.Element) string {
+	return string(unsafe.Slice((*byte)(unsafe.Pointer(e)), unsafe.Sizeof(*e)))
 }
